@@ -103,7 +103,7 @@ def _same(a, b):
     if isinstance(a, list) and isinstance(b, list):
         return len(a) == len(b) and all(_same(x, y) for x, y in zip(a, b))
     if isinstance(a, float) or isinstance(b, float):
-        return a == b or abs(a - b) <= 1e-9 * max(abs(a), abs(b))
+        return a == b or abs(a - b) <= 2e-6 * max(abs(a), abs(b))     # float32 accumulations in a different order
     return a == b
 
 
